@@ -218,7 +218,9 @@ func TestC24(t *testing.T) {
 				case "foreign_identity":
 					e.signerAS, e.claimIA, e.reason = n, n, "foreign_identity"
 				case "foreign_key_under_named_identity":
-					e.signerAS, e.reason = n, "foreign_key_under_named_identity"
+					// the impersonator is the spare AS or an AS that signed an earlier entry of this
+					// segment (whose chain the verifier has just used and cached)
+					e.signerAS, e.reason = rapid.SampledFrom(append([]int{n}, seqTo(i)...)).Draw(rt, "impersonator"), "foreign_key_under_named_identity"
 				case "wrong_key":
 					e.reason = "wrong_key"
 				}
@@ -408,3 +410,11 @@ func TestC24(t *testing.T) {
 }
 
 var _ = cryptopb.SignedMessage{}
+
+func seqTo(n int) []int {
+	var out []int
+	for i := 0; i < n; i++ {
+		out = append(out, i)
+	}
+	return out
+}
